@@ -32,11 +32,44 @@ def _parent(case, public=False):
     return xk, bridge.mk_node(xk, case["testnet"], case.get("form", "ctor"), purpose=case.get("vpurpose", 44))
 
 
-def _run_ckd(node, i, I):
+ENTRY_POINTS = ("ckd", "derive_path", "generate_children", "generate_children_range", "wallet.by_path", "address_generator")
+
+
+def _run_ckd(node, i, I, via="ckd"):
+    """Derive child i of `node` through the chosen public entry point while the PRF returns I for exactly the
+    (parent chain code, ...||ser32(i)) request and the real HMAC for everything else."""
     import btc_hd_wallet.bip32 as b32
-    with inject.PRFStub([b32], plan=lambda key, msg: I) as stub:
+    cc = bytes(node.chain_code)
+    i4 = i.to_bytes(4, "big")
+
+    def plan(key, msg):
+        return I if (bytes(key) == cc and bytes(msg[-4:]) == i4) else None
+    with inject.PRFStub([b32], plan=plan) as stub:
         try:
-            r, err = node.ckd(index=i), None
+            if via == "derive_path":
+                r = node.derive_path(index_list=[i])
+            elif via == "generate_children":
+                r = node.generate_children(interval=(i, i + 1))[0]
+            elif via == "generate_children_range":
+                lo = max(i - 2, 0 if i < H else H)
+                kids = node.generate_children(interval=(lo, i + 2 if (i + 2 <= H or i >= H) and i + 2 < (1 << 32) else i + 1))
+                r = next(k for k in kids if k.index == i)
+            elif via == "wallet.by_path":
+                from btc_hd_wallet.base_wallet import BaseWallet
+                from ..ref import path as rpath
+                r = BaseWallet(master=node, testnet=node.testnet).by_path(rpath.fmt([i], "m"))
+            elif via == "address_generator" and i < 40:
+                from btc_hd_wallet.base_wallet import BaseWallet
+                g = BaseWallet(master=node, testnet=node.testnet).address_generator(node)
+                next(g)
+                if i:
+                    g.send(i)
+                r = [c for c in node.children if c.index == i][-1]
+            else:
+                r = node.ckd(index=i)
+            err = None
+        except StopIteration:
+            r, err = None, RuntimeError("listing did not contain the requested child")
         except Exception as e:  # noqa
             r, err = None, e
     used = sum(1 for c in stub.calls if c[3])
@@ -50,7 +83,8 @@ def judge_fault_ckd(ctx, case):
     I = case["IL"].to_bytes(32, "big") + case["IR"]
     n0 = len(node.children)
     ident0 = bridge.node_obs(node)
-    r, err, used = _run_ckd(node, i, I)
+    via = case.get("via", "ckd")
+    r, err, used = _run_ckd(node, i, I, via)
     mon = "fault.ckd_" + ("pub" if public else "priv")
     if used == 0:
         ctx.note_inconclusive("PRF stub was not consulted by %s" % mon)
@@ -65,7 +99,7 @@ def judge_fault_ckd(ctx, case):
     obs = err if ok else bridge.node_obs(r)
     if ok and bridge.node_obs(node) != ident0:
         ok, obs = False, {"parent_before": ident0, "parent_after": bridge.node_obs(node)}
-    return ctx.judge(mon, ok, case, "raise", obs, cls="%s|%s|%s" % (case["ftag"], "hard" if i >= H else "norm", case.get("form", "ctor")),
+    return ctx.judge(mon, ok, case, "raise", obs, cls="%s|%s|%s|%s" % (case["ftag"], "hard" if i >= H else "norm", case.get("form", "ctor"), via),
                      outcome="raised:" + type(err).__name__ if err is not None else "returned",
                      mech="C18.ckd_%s.returned" % ("priv" if not public else "pub") if err is None else "C18.ckd_%s.state_changed" % case["side"])
 
@@ -79,9 +113,9 @@ def judge_control_ckd(ctx, case):
         exp = (rb32.ckd_pub_from_I if public else rb32.ckd_priv_from_I)(xk.neuter() if public else xk, i, I)
     except rb32.InvalidChild:
         return None
-    r, err, used = _run_ckd(node, i, I)
+    r, err, used = _run_ckd(node, i, I, case.get("via", "ckd"))
     if err is not None:
-        return ctx.judge("control", False, case, exp.fields(), err, cls="ctl|%s|%s" % (case["side"], case["ftag"]), outcome="raised",
+        return ctx.judge("control", False, case, exp.fields(), err, cls="ctl|%s|%s|%s" % (case["side"], case["ftag"], case.get("via", "ckd")), outcome="raised",
                          mech="C18.control.over_rejects")
     bad = bridge.compare_node(r, exp, case["testnet"], not public)
     return ctx.judge("control", not bad, case, exp.fields(), bad, cls="ctl|%s|%s" % (case["side"], case["ftag"]), mech="C18.control.wrong_child")
@@ -232,10 +266,18 @@ def run(ctx):
         for side in ("prv", "pub"):
             for hard in ((False, True) if side == "prv" else (False,)):
                 for ftag, il in invalid_ILs(rnd, k):
-                    c = dict(base, side=side, index=gen.index(rnd, hardened=hard)[1], IL=il, IR=gen.rbytes(rnd, 32), ftag=ftag)
+                    via = rnd.choice(ENTRY_POINTS)
+                    idx = gen.index(rnd, hardened=hard)[1] if via != "address_generator" or hard else rnd.randrange(0, 30)
+                    if via == "wallet.by_path" and base["depth"] != 0:
+                        via = "derive_path"
+                    c = dict(base, side=side, index=idx, IL=il, IR=gen.rbytes(rnd, 32), ftag=ftag, via=via)
                     judge_fault_ckd(ctx, c)
                 for ftag, il in valid_ILs(rnd, k):
-                    c = dict(base, side=side, index=gen.index(rnd, hardened=hard)[1], IL=il, IR=gen.rbytes(rnd, 32), ftag=ftag)
+                    via = rnd.choice(ENTRY_POINTS)
+                    idx = gen.index(rnd, hardened=hard)[1] if via != "address_generator" or hard else rnd.randrange(0, 30)
+                    if via == "wallet.by_path" and base["depth"] != 0:
+                        via = "derive_path"
+                    c = dict(base, side=side, index=idx, IL=il, IR=gen.rbytes(rnd, 32), ftag=ftag, via=via)
                     judge_control_ckd(ctx, c)
     for j in range(ctx.scale(16, 800)):
         for ftag, il in [("IL=0", 0), ("IL=n", N), ("IL=n+1", N + 1), ("IL=2^256-1", TOP), ("IL=random>=n", rnd.randrange(N, 1 << 256)),
